@@ -327,6 +327,12 @@ def run(env, rep):
                     continue
                 if op == "remove" and name in ("accept_request", "reject_request") and re.match(r"^&?load\(request_id\)$", t[3][0]):
                     continue
+                # the same removal inside a private helper that only accept / reject call, keyed by the helper's own parameter
+                hb = bodies.get(name)
+                if op == "remove" and hb is not None and not hb.is_pub and re.match(r"^&?load\(\w+\)$", t[3][0]):
+                    callers = {prog.bodies[c].pretty.split("::")[-1] for c in prog.callers.get(hb.key, ()) if c in prog.bodies}
+                    if callers and callers <= {"accept_request", "reject_request"}:
+                        continue
                 bad_touch.append("%s calls %s(%s) on outstanding_requests" % (name, op, ", ".join(x[:50] for x in t[3][:1])))
     rep.check("C09.R5", "outstanding-requests|only-insert-fresh-and-remove-decided", n_touch >= 5 and not bad_touch,
               "outstanding_requests changes only by inserting a fresh id and by accept / reject removing the id they decide (%d call sites on the replayed paths)" % n_touch,
@@ -355,7 +361,7 @@ def run(env, rep):
             rep.check("C09.R8", "%s|refusal:%s|effect-free" % (name, vname), not eff, "%s: the path that refuses with %s changes nothing" % (name, vname),
                       "%s refuses with %s but has already changed the session: %s (a refused call must not have side effects: a publishing stream would stop raising media and finished events)" % (
                           b.pretty, vname, "; ".join(sorted(set(eff))[:3])), b.span)
-    rep.floor("C09.R8", "refusing paths of public application calls", n8, 4)
+    rep.floor("C09.R8", "refusing paths of public application calls", n8, 2)
     # ------------------------------------------------------------------ R6 close / delete
     paths = traces.get("handle_command_close_stream", [])
     n6, bad6 = 0, []
